@@ -739,6 +739,12 @@ def t1_property(pid, tier, seed, replay):
                 direct.append(dict(case="extras: kill_while_waiting  (A holds; B blocks in lock(); C's raw try_lock panics and kills the lock; A releases)",
                                    impl=str(kw), model="waiter_got=refused", source="extras",
                                    message="a thread that was already waiting when the lock was killed by a panicking raw operation is handed a usable guard afterwards (the kill flag is only tested before the blocking call)"))
+            kt = xl.get("kill_during_try")
+            if kt is None or kt.get("in_flight_try_got_guard") != "false" or kt.get("try_was_in_flight") != "true" or kt.get("fresh_try_refused") != "true":
+                n_direct_seen += 1
+                direct.append(dict(case="extras: kill_during_try  (A holds; B's try_lock is pre-empted inside the raw try; A's raw unlock releases and then panics, killing the lock; B resumes)",
+                                   impl=str(kt), model="in_flight_try_got_guard=false;fresh_try_refused=true", source="extras",
+                                   message="a try_lock in flight when the lock was killed by a panicking raw operation returns a usable guard on the killed lock (the kill flag is only tested before the raw try)"))
 
     # C07: the zero-sized corner (recorded finding D9), reproduced against the real crate
     if pid == "C07":
